@@ -270,15 +270,6 @@ Lemma do_initfb_int st i n dfb s :
 Proof. intros H. unfold do_initfb, init_Wfb_int. rewrite H. reflexivity. Qed.
 
 (* do_run reads and writes only the node and its noise generator *)
-Definition run_result (g : gstate) (n : rnode) (x T : nat) : option (rnode * gstate * list event) :=
-  match n_params n with
-  | Some (W, Win, b, din) =>
-      if c_fb (n_cfg n) && (match n_wfb n with None => true | _ => false end) then None
-      else let '(g', l) := prun_noise T g n din in
-           let log := n_log n ++ [mkRun x T l] in
-           Some (mkNode (n_cfg n) (n_rng n) (n_params n) (n_wfb n) log, g', [])
-  | None => None
-  end.
 Lemma do_run_spec st i n x T :
   let st' := fst (do_run st i n x T) in
   match n_params n with
@@ -646,7 +637,7 @@ Proof.
       assert (L : log_rooted s (n_log n ++ [mkRun x T (snd (prun_noise T (heap st (GPriv i)) n din))])).
       { apply Forall_app. split; [exact Hl | repeat constructor; exact R2]. }
       split.
-      * unfold inv. rewrite nn, upd_same. simpl. rewrite hh, P. repeat split; auto.
+      * unfold inv. rewrite nn, upd_same. simpl. rewrite hh. repeat split; auto; apply Hp.
       * repeat constructor; simpl; try apply Hp; auto.
         unfold wfb_mat. destruct (n_wfb n) as [[m d]|]; simpl in *; auto.
   - destruct S as (-> & ->). split; [assumption | constructor].
@@ -717,4 +708,250 @@ Proof.
     + apply Forall_filter; assumption.
   - apply rel_refl; [eapply inv_own_seeded; eauto | assumption].
   - eapply Forall_impl; [|exact F]. intros o. apply seeded_op_with_weaken.
+Qed.
+
+(* ------------------------------------------------------------------ C14_global_seed_reproducible *)
+(* generator objects that exist and were not a global generator before the script's set_seed *)
+Definition live (e0 ep : nat) (k : gid) : Prop := match k with GGlob e => e0 < e <= ep | _ => True end.
+Record sim (e0 : nat) (a b : state) : Prop := {
+  sim_epoch : epoch a = epoch b; sim_lt : e0 < epoch a; sim_ds : ds_default a = ds_default b;
+  sim_nodes : forall i, nodes a i = nodes b i; sim_sks : forall i, sks a i = sks b i;
+  sim_heap : forall k, live e0 (epoch a) k -> heap a k = heap b k;
+  sim_live : forall i n, nodes a i = Some n -> live e0 (epoch a) (n_rng n) }.
+
+Lemma sim_set_heap e0 a b k v : sim e0 a b -> sim e0 (set_heap a k v) (set_heap b k v).
+Proof.
+  intros [E L D N S H V]. constructor; simpl; auto.
+  intros k' Hk. unfold upd_heap. destruct (gid_eqb k k'); auto.
+Qed.
+Lemma sim_set_node e0 a b i n : sim e0 a b -> live e0 (epoch a) (n_rng n) -> sim e0 (set_node a i n) (set_node b i n).
+Proof.
+  intros [E L D N S H V] Hl. constructor; simpl; auto.
+  - intros j. unfold upd. destruct (i =? j); auto.
+  - intros j m. unfold upd. destruct (i =? j); [intros X; inversion X; subst; assumption | apply V].
+Qed.
+Lemma sim_set_sk e0 a b i n : sim e0 a b -> sim e0 (set_sk a i n) (set_sk b i n).
+Proof.
+  intros [E L D N S H V]. constructor; simpl; auto. intros j. unfold upd. destruct (i =? j); auto.
+Qed.
+Lemma sim_gptr_live e0 a b : sim e0 a b -> live e0 (epoch a) (gptr a).
+Proof. intros S. simpl. pose proof (sim_lt _ _ _ S). lia. Qed.
+Lemma sim_gptr e0 a b : sim e0 a b -> gptr a = gptr b.
+Proof. intros S. unfold gptr. rewrite (sim_epoch _ _ _ S). reflexivity. Qed.
+
+Lemma sim_draw_src e0 a b sd r post :
+  sim e0 a b -> sim e0 (fst (draw_src a sd r post)) (fst (draw_src b sd r post)) /\ snd (draw_src a sd r post) = snd (draw_src b sd r post).
+Proof.
+  intros S. destruct sd as [|s|u]; simpl.
+  - rewrite <- (sim_gptr _ _ _ S), <- (sim_heap _ _ _ S _ (sim_gptr_live _ _ _ S)).
+    split; [apply sim_set_heap; assumption | reflexivity].
+  - auto.
+  - rewrite <- (sim_heap _ _ _ S (GUser u) I). split; [apply sim_set_heap; assumption | reflexivity].
+Qed.
+
+Lemma sim_noise e0 a b p gain r :
+  sim e0 a b -> live e0 (epoch a) p ->
+  sim e0 (fst (noise a p gain r)) (fst (noise b p gain r)) /\ snd (noise a p gain r) = snd (noise b p gain r) /\
+  epoch (fst (noise a p gain r)) = epoch a.
+Proof.
+  intros S L. unfold noise. destruct (gain =? 0); simpl; [auto|].
+  rewrite <- (sim_heap _ _ _ S p L). split; [apply sim_set_heap; assumption | auto].
+Qed.
+
+Lemma sim_step_noise e0 a b n din :
+  sim e0 a b -> live e0 (epoch a) (n_rng n) ->
+  sim e0 (fst (step_noise a n din)) (fst (step_noise b n din)) /\ snd (step_noise a n din) = snd (step_noise b n din) /\
+  epoch (fst (step_noise a n din)) = epoch a.
+Proof.
+  intros S L. unfold step_noise. set (c := n_cfg n). set (p := n_rng n) in *.
+  pose proof (sim_noise e0 a b p (c_gin c) (mkReq DNOISE din 1 (c_ndist c)) S L) as (S1 & O1 & E1).
+  destruct (noise a p (c_gin c) (mkReq DNOISE din 1 (c_ndist c))) as [a1 x1].
+  destruct (noise b p (c_gin c) (mkReq DNOISE din 1 (c_ndist c))) as [b1 y1]. simpl in *. subst y1.
+  assert (L1 : live e0 (epoch a1) p) by (rewrite E1; exact L).
+  assert (X : exists a2 b2 x2,
+     (match n_wfb n with
+      | Some (_, dfb) => if c_fb c then noise a1 p (c_gfb c) (mkReq DNOISE dfb 1 (c_ndist c)) else (a1, None)
+      | None => (a1, None) end) = (a2, x2) /\
+     (match n_wfb n with
+      | Some (_, dfb) => if c_fb c then noise b1 p (c_gfb c) (mkReq DNOISE dfb 1 (c_ndist c)) else (b1, None)
+      | None => (b1, None) end) = (b2, x2) /\ sim e0 a2 b2 /\ epoch a2 = epoch a1).
+  { destruct (n_wfb n) as [[m dfb]|]; [destruct (c_fb c)|].
+    - pose proof (sim_noise e0 a1 b1 p (c_gfb c) (mkReq DNOISE dfb 1 (c_ndist c)) S1 L1) as (S2 & O2 & E2).
+      destruct (noise a1 p (c_gfb c) (mkReq DNOISE dfb 1 (c_ndist c))) as [a2 x2].
+      destruct (noise b1 p (c_gfb c) (mkReq DNOISE dfb 1 (c_ndist c))) as [b2 y2]. simpl in *. subst y2.
+      exists a2, b2, x2. refine (conj eq_refl (conj eq_refl (conj _ _))); assumption.
+    - exists a1, b1, None. refine (conj eq_refl (conj eq_refl (conj _ _))); auto.
+    - exists a1, b1, None. refine (conj eq_refl (conj eq_refl (conj _ _))); auto. }
+  destruct X as (a2 & b2 & x2 & -> & -> & S2 & E2).
+  assert (L2 : live e0 (epoch a2) p) by (rewrite E2; exact L1).
+  pose proof (sim_noise e0 a2 b2 p (c_grc c) (mkReq DNOISE (c_units c) 1 (c_ndist c)) S2 L2) as (S3 & O3 & E3).
+  destruct (noise a2 p (c_grc c) (mkReq DNOISE (c_units c) 1 (c_ndist c))) as [a3 x3].
+  destruct (noise b2 p (c_grc c) (mkReq DNOISE (c_units c) 1 (c_ndist c))) as [b3 y3]. simpl in *. subst y3.
+  refine (conj S3 (conj eq_refl _)). congruence.
+Qed.
+
+Lemma sim_run_noise e0 T : forall a b n din,
+  sim e0 a b -> live e0 (epoch a) (n_rng n) ->
+  sim e0 (fst (run_noise T a n din)) (fst (run_noise T b n din)) /\ snd (run_noise T a n din) = snd (run_noise T b n din) /\
+  epoch (fst (run_noise T a n din)) = epoch a.
+Proof.
+  induction T; intros a b n din S L; simpl; [auto|].
+  pose proof (sim_step_noise e0 a b n din S L) as (S1 & O1 & E1).
+  destruct (step_noise a n din) as [a1 x1]. destruct (step_noise b n din) as [b1 y1]. simpl in *. subst y1.
+  assert (L1 : live e0 (epoch a1) (n_rng n)) by (rewrite E1; exact L).
+  pose proof (IHT a1 b1 n din S1 L1) as (S2 & O2 & E2).
+  destruct (run_noise T a1 n din) as [a2 x2]. destruct (run_noise T b1 n din) as [b2 y2]. simpl in *. subst y2.
+  refine (conj S2 (conj eq_refl _)). congruence.
+Qed.
+
+Lemma draw_src_epoch st sd r post : epoch (fst (draw_src st sd r post)) = epoch st.
+Proof. apply (draw_src_pframe st sd r post). Qed.
+
+Lemma sim_do_init e0 a b i n din :
+  sim e0 a b -> live e0 (epoch a) (n_rng n) ->
+  sim e0 (fst (do_init a i n din)) (fst (do_init b i n din)) /\ snd (do_init a i n din) = snd (do_init b i n din).
+Proof.
+  intros S L. unfold do_init. set (c := n_cfg n).
+  pose proof (sim_draw_src e0 a b (c_src c) (mkReq DNORM (c_units c) (c_units c) (fst (c_W c))) (snd (c_W c)) S) as (S1 & O1).
+  pose proof (draw_src_epoch a (c_src c) (mkReq DNORM (c_units c) (c_units c) (fst (c_W c))) (snd (c_W c))) as E1.
+  destruct (draw_src a (c_src c) (mkReq DNORM (c_units c) (c_units c) (fst (c_W c))) (snd (c_W c))) as [a1 x1].
+  destruct (draw_src b (c_src c) (mkReq DNORM (c_units c) (c_units c) (fst (c_W c))) (snd (c_W c))) as [b1 y1].
+  simpl in S1, O1, E1. subst y1.
+  pose proof (sim_draw_src e0 a1 b1 (c_src c) (mkReq DBERN (c_units c) din (fst (c_Win c))) (snd (c_Win c)) S1) as (S2 & O2).
+  pose proof (draw_src_epoch a1 (c_src c) (mkReq DBERN (c_units c) din (fst (c_Win c))) (snd (c_Win c))) as E2.
+  destruct (draw_src a1 (c_src c) (mkReq DBERN (c_units c) din (fst (c_Win c))) (snd (c_Win c))) as [a2 x2].
+  destruct (draw_src b1 (c_src c) (mkReq DBERN (c_units c) din (fst (c_Win c))) (snd (c_Win c))) as [b2 y2].
+  simpl in S2, O2, E2. subst y2.
+  assert (X : exists a3 b3 m,
+     (if c_bias c then let '(s, d) := draw_src a2 (c_src c) (mkReq DBERN (c_units c) 1 (fst (c_B c))) (snd (c_B c)) in (s, MDraw d)
+      else (a2, MZero (c_units c) 1)) = (a3, m) /\
+     (if c_bias c then let '(s, d) := draw_src b2 (c_src c) (mkReq DBERN (c_units c) 1 (fst (c_B c))) (snd (c_B c)) in (s, MDraw d)
+      else (b2, MZero (c_units c) 1)) = (b3, m) /\ sim e0 a3 b3 /\ epoch a3 = epoch a2).
+  { destruct (c_bias c); [|eauto 10].
+    pose proof (sim_draw_src e0 a2 b2 (c_src c) (mkReq DBERN (c_units c) 1 (fst (c_B c))) (snd (c_B c)) S2) as (S3 & O3).
+    pose proof (draw_src_epoch a2 (c_src c) (mkReq DBERN (c_units c) 1 (fst (c_B c))) (snd (c_B c))) as E3.
+    destruct (draw_src a2 (c_src c) (mkReq DBERN (c_units c) 1 (fst (c_B c))) (snd (c_B c))) as [a3 x3].
+    destruct (draw_src b2 (c_src c) (mkReq DBERN (c_units c) 1 (fst (c_B c))) (snd (c_B c))) as [b3 y3].
+    simpl in *. subst y3. eauto 10. }
+  destruct X as (a3 & b3 & m & -> & -> & S3 & E3). simpl.
+  split; [|reflexivity]. apply sim_set_node; [assumption|]. simpl. rewrite E3, E2, E1. exact L.
+Qed.
+
+Lemma sim_do_initfb e0 a b i n dfb :
+  sim e0 a b -> live e0 (epoch a) (n_rng n) ->
+  sim e0 (fst (do_initfb a i n dfb)) (fst (do_initfb b i n dfb)) /\ snd (do_initfb a i n dfb) = snd (do_initfb b i n dfb).
+Proof.
+  intros S L. unfold do_initfb. set (c := n_cfg n).
+  pose proof (sim_draw_src e0 a b (c_src c) (mkReq DBERN (c_units c) dfb (fst (c_Fb c))) (snd (c_Fb c)) S) as (S1 & O1).
+  pose proof (draw_src_epoch a (c_src c) (mkReq DBERN (c_units c) dfb (fst (c_Fb c))) (snd (c_Fb c))) as E1.
+  destruct (draw_src a (c_src c) (mkReq DBERN (c_units c) dfb (fst (c_Fb c))) (snd (c_Fb c))) as [a1 x1].
+  destruct (draw_src b (c_src c) (mkReq DBERN (c_units c) dfb (fst (c_Fb c))) (snd (c_Fb c))) as [b1 y1].
+  simpl in *. subst y1. split; [|reflexivity]. apply sim_set_node; [assumption|]. simpl. rewrite E1. exact L.
+Qed.
+
+Lemma sim_do_run e0 a b i n x T :
+  sim e0 a b -> live e0 (epoch a) (n_rng n) ->
+  sim e0 (fst (do_run a i n x T)) (fst (do_run b i n x T)) /\ snd (do_run a i n x T) = snd (do_run b i n x T).
+Proof.
+  intros S L. unfold do_run. destruct (n_params n) as [[[[W Win] bb] din]|]; [|auto].
+  destruct (c_fb (n_cfg n) && match n_wfb n with None => true | Some _ => false end); [auto|].
+  pose proof (sim_run_noise e0 T a b n din S L) as (S1 & O1 & E1).
+  destruct (run_noise T a n din) as [a1 x1]. destruct (run_noise T b n din) as [b1 y1]. simpl in *. subst y1.
+  split; [|reflexivity]. apply sim_set_node; [assumption|]. simpl. rewrite E1. exact L.
+Qed.
+
+Lemma sim_step e0 a b o :
+  sim e0 a b -> sim e0 (fst (step a o)) (fst (step b o)) /\ snd (step a o) = snd (step b o).
+Proof.
+  intros S. pose proof S as [E L D N K H V].
+  destruct o as [s|g s|r|g r|j c|j din|j dfb|j x din T|sd r post|s|j rs hrs cfg|j data]; cbv beta iota zeta delta [step].
+  - (* set_seed *) split; [|reflexivity]. unfold do_set_seed. constructor; simpl; auto; try lia.
+    + intros k Hk. unfold upd_heap. rewrite E. destruct (gid_eqb (GGlob (Datatypes.S (epoch b))) k) eqn:Q; [reflexivity|].
+      apply H. destruct k as [e| |]; simpl in *; auto. destruct (Nat.eq_dec e (Datatypes.S (epoch b))) as [->|Ne].
+      * rewrite Nat.eqb_refl in Q. discriminate.
+      * lia.
+    + intros i n Hn. specialize (V i n Hn). destruct (n_rng n); simpl in *; auto. lia.
+  - split; [apply sim_set_heap; assumption | reflexivity].
+  - pose proof (sim_draw_src e0 a b SNone r 0 S) as (S1 & O1).
+    destruct (draw_src a SNone r 0) as [a1 x1]. destruct (draw_src b SNone r 0) as [b1 y1]. simpl in *. subst. auto.
+  - pose proof (sim_draw_src e0 a b (SGen g) r 0 S) as (S1 & O1).
+    destruct (draw_src a (SGen g) r 0) as [a1 x1]. destruct (draw_src b (SGen g) r 0) as [b1 y1]. simpl in *. subst. auto.
+  - (* construct *) split; [|reflexivity]. unfold construct. destruct (c_src c) as [|s|u].
+    + rewrite <- (sim_gptr _ _ _ S). apply sim_set_node; [assumption | apply (sim_gptr_live _ _ _ S)].
+    + apply sim_set_node; [apply sim_set_heap; assumption | exact I].
+    + apply sim_set_node; [assumption | exact I].
+  - rewrite <- N. destruct (nodes a j) as [n|] eqn:Nj; [|auto]. destruct (n_params n); [auto|].
+    apply sim_do_init; eauto.
+  - rewrite <- N. destruct (nodes a j) as [n|] eqn:Nj; [|auto]. destruct (c_fb (n_cfg n)); [|auto]. destruct (n_wfb n); [auto|].
+    apply sim_do_initfb; eauto.
+  - rewrite <- N. destruct (nodes a j) as [n|] eqn:Nj; [|auto]. destruct (n_params n).
+    + apply sim_do_run; eauto.
+    + pose proof (sim_do_init e0 a b j n din S (V _ _ Nj)) as (S1 & O1).
+      destruct (do_init a j n din) as [a1 x1]. destruct (do_init b j n din) as [b1 y1]. simpl in S1, O1. subst y1.
+      rewrite <- (sim_nodes _ _ _ S1). destruct (nodes a1 j) as [n1|] eqn:N1; [|auto].
+      pose proof (sim_do_run e0 a1 b1 j n1 x T S1 (sim_live _ _ _ S1 _ _ N1)) as (S2 & O2).
+      destruct (do_run a1 j n1 x T) as [a2 x2]. destruct (do_run b1 j n1 x T) as [b2 y2]. simpl in *. subst y2. auto.
+  - rewrite <- D. set (sd' := match sd with SNone => SInt (ds_default a) | _ => sd end).
+    pose proof (sim_draw_src e0 a b sd' r post S) as (S1 & O1).
+    destruct (draw_src a sd' r post) as [a1 x1]. destruct (draw_src b sd' r post) as [b1 y1]. simpl in *. subst. auto.
+  - split; [|reflexivity]. constructor; simpl; auto.
+  - destruct rs; [split; [apply sim_set_sk; assumption | reflexivity]|].
+    destruct hrs; [|split; [apply sim_set_sk; assumption | reflexivity]].
+    pose proof (sim_draw_src e0 a b SNone (mkReq DINT 1 1 0) 0 S) as (S1 & O1).
+    destruct (draw_src a SNone (mkReq DINT 1 1 0) 0) as [a1 x1]. destruct (draw_src b SNone (mkReq DINT 1 1 0) 0) as [b1 y1].
+    simpl in *. subst. split; [apply sim_set_sk; assumption | reflexivity].
+  - rewrite <- K. destruct (sks a j); [|auto]. split; [apply sim_set_sk; assumption | reflexivity].
+Qed.
+
+Lemma sim_exec e0 : forall h a b, sim e0 a b -> snd (exec a h) = snd (exec b h).
+Proof.
+  induction h as [|o h IH]; intros a b S; simpl; [reflexivity|].
+  pose proof (sim_step e0 a b o S) as (S1 & O1).
+  destruct (step a o) as [a1 x1]. destruct (step b o) as [b1 y1]. simpl in *. subst y1.
+  specialize (IH a1 b1 S1). destruct (exec a1 h) as [a2 x2]. destruct (exec b1 h) as [b2 y2]. simpl in *. congruence.
+Qed.
+
+(* two program states that differ only in the content of (past and present) global generator objects, and in which no
+   node captured such an object *)
+Record same_but_global (a b : state) : Prop := {
+  sg_epoch : epoch a = epoch b; sg_ds : ds_default a = ds_default b;
+  sg_nodes : forall i, nodes a i = nodes b i; sg_sks : forall i, sks a i = sks b i;
+  sg_heap : forall k, (forall e, k <> GGlob e) -> heap a k = heap b k;
+  sg_nodes_seeded : forall i n e, nodes a i = Some n -> n_rng n <> GGlob e }.
+
+Theorem global_seed_reproducible a b s h :
+  same_but_global a b -> snd (exec a (OSetSeed s :: h)) = snd (exec b (OSetSeed s :: h)).
+Proof.
+  intros [E D N K H V].
+  assert (S : sim (epoch a) (do_set_seed a s) (do_set_seed b s)).
+  { constructor; simpl; auto.
+    - intros k Hk. unfold upd_heap. rewrite E. destruct (gid_eqb (GGlob (S (epoch b))) k) eqn:Q; [reflexivity|].
+      destruct k as [e| |]; simpl in *; try (apply H; intros; discriminate).
+      assert (e = S (epoch b)) by lia. subst e. rewrite Nat.eqb_refl in Q. discriminate.
+    - intros i n Hn. specialize (V i n). destruct (n_rng n) as [e| |]; simpl; auto. exfalso. eapply V; eauto. }
+  simpl. pose proof (sim_exec (epoch a) h _ _ S) as X.
+  destruct (exec (do_set_seed a s) h) as [a2 x2]. destruct (exec (do_set_seed b s) h) as [b2 y2]. simpl in *. congruence.
+Qed.
+
+Lemma init_same_but_global k1 k2 : same_but_global (init_state k1) (init_state k2).
+Proof.
+  constructor; simpl; auto; try discriminate.
+  intros k Hk. destruct k as [e| |]; auto. destruct e; [exfalso; eapply Hk; reflexivity | reflexivity].
+Qed.
+
+Lemma seed_reaches_fresh i s st h :
+  nodes st i = None -> wf i st -> Forall (seeded_op_with i s) h ->
+  Forall (fun e => term_rooted s (e_term e)) (proj i (snd (exec st h))).
+Proof. intros N W. apply seed_reaches_every_component; [assumption|]. unfold inv. rewrite N. exact I. Qed.
+
+Theorem different_seeds_different_streams i j s1 s2 st h e1 e2 :
+  s1 <> s2 -> nodes st i = None -> nodes st j = None -> wf i st -> wf j st ->
+  Forall (seeded_op_with i s1) h -> Forall (seeded_op_with j s2) h ->
+  In e1 (proj i (snd (exec st h))) -> In e2 (proj j (snd (exec st h))) -> term_random (e_term e1) ->
+  e_term e1 <> e_term e2.
+Proof.
+  intros Hs Ni Nj Wi Wj Fi Fj I1 I2 R.
+  pose proof (seed_reaches_fresh i s1 st h Ni Wi Fi) as A.
+  pose proof (seed_reaches_fresh j s2 st h Nj Wj Fj) as B.
+  rewrite Forall_forall in A, B. eapply rooted_diff; eauto.
 Qed.
